@@ -4,6 +4,7 @@
    from the real Processor; see Model/MergeAt.v. *)
 From Coq Require Import List Ascii String ZArith NArith Bool.
 From YP Require Import Outcome PyStr PyVal Doc PathParser Searches MergeConfig Merge MergeAt MergeAtProofs.
+From YP Require Import Mutate Create C04spec C09create C09doc MergeAtCreate.
 (* obligations tying the models' literal tables to the tables regenerated from the source *)
 From YP Require Import GenTables.
 Import ListNotations.
@@ -21,17 +22,30 @@ Theorem C11_frame :
 Proof. exact merge_at_frame. Qed.
 Print Assumptions C11_frame.
 
-(* each matched node becomes what C05's per-target dispatch makes of its old
-   content and the right-hand document *)
+(* EVERY matched node becomes what C05's per-target dispatch makes of its old
+   content and the right-hand document: [t] is any of the targets, the others
+   (before and after it in the list) lie apart from it.  No guard: since the
+   repairs 6840572 and c8dbfd9 this holds for every right-hand document,
+   configuration and kind of target. *)
 Theorem C11_targets_merged :
-  forall lit cfg is_root t doc rhs out old,
+  forall lit cfg is_root pre t post doc rhs out old,
     is_none rhs = false ->
-    scalar_clobbers is_root [t] doc rhs = false ->
-    merge_at lit cfg is_root [t] doc rhs = Ok out ->
+    merge_at lit cfg is_root (pre ++ t :: post) doc rhs = Ok out ->
+    Forall (fun t' => leaves t' t) (pre ++ post) ->
     lookup doc t = Some old ->
     exists new, merge_target lit cfg is_root rhs old = Ok new /\ lookup out t = Some new.
-Proof. exact target_holds_dispatch. Qed.
+Proof. exact every_target_holds_dispatch. Qed.
 Print Assumptions C11_targets_merged.
+
+(* ... and that is the node C05's per-target insert RETURNS (at the root and
+   away from it alike), unless the target already is the right-hand document
+   (a created path) or a Scalar receives a Scalar (it takes the new value) *)
+Theorem C11_target_is_policy_merge :
+  forall lit cfg is_root rhs t,
+    same_obj t rhs = false -> (is_leaf rhs && is_leaf t = false) ->
+    merge_target lit cfg is_root rhs t = (do m <- insert_any lit cfg t rhs; Ok (ret m)).
+Proof. exact merge_target_is_returned. Qed.
+Print Assumptions C11_target_is_policy_merge.
 
 (* a path that matches nothing and cannot be created: merge error *)
 Theorem C11_unmatched_is_error :
@@ -62,16 +76,108 @@ Proof. left. intros e H. destruct e; simpl in *; try discriminate.
   unfold py_eq in *; simpl in *. destruct (String.eqb s "a") eqn:E; [|discriminate].
   apply String.eqb_eq in E; subst. reflexivity. Qed.
 
-(* KNOWN FINDING F-C11-1: away from the root the RETURNED merge result is
-   dropped: hashes=right at /a leaves /a as it was instead of replacing it. *)
-Theorem C11_right_at_path_refuted :
-  exists doc rhs out,
-    merge_at no_lit cfg_hr false [[RKey (PStr "a")]] doc rhs = Ok out /\
-    lookup out [RKey (PStr "a")] = lookup doc [RKey (PStr "a")] /\
-    rhs = mp 20 [(ky "c", lf 5 (PInt 2))].
-Proof.
-  exists (mp 10 [(ky "a", mp 11 [(ky "b", lf 3 (PInt 1))])]).
-  exists (mp 20 [(ky "c", lf 5 (PInt 2))]).
-  exists (mp 10 [(ky "a", mp 11 [(ky "b", lf 3 (PInt 1))])]).
-  split; [vm_compute; reflexivity|]. split; reflexivity.
-Qed.
+(* FORMER FINDING F-C11-1 (repaired by 6840572): away from the root the RETURNED
+   merge result reaches the document: hashes=right at /a replaces /a. *)
+Example C11_right_at_path :
+  merge_at no_lit cfg_hr false [[RKey (PStr "a")]]
+    (mp 10 [(ky "a", mp 11 [(ky "b", lf 3 (PInt 1))])])
+    (mp 20 [(ky "c", lf 5 (PInt 2))]) =
+  Ok (mp 10 [(ky "a", mp 20 [(ky "c", lf 5 (PInt 2))])]).
+Proof. vm_compute. reflexivity. Qed.
+
+(* ... and so does a list re-built by arrays=unique: {a: [1, 2]} + [2, 3] at /a gives {a: [1, 2, 3]} *)
+Definition sq (o : N) (els : list node) := NSeq (mkinfo o None true None) els.
+Definition cfg_au : mconfig := mkconfig false [] [] None (Some "unique"%string) None None None None None None None None.
+Example C11_unique_at_path :
+  exists i,
+  merge_at no_lit cfg_au false [[RKey (PStr "a")]]
+    (mp 10 [(ky "a", sq 11 [lf 3 (PInt 1); lf 4 (PInt 2)])])
+    (sq 20 [lf 4 (PInt 2); lf 5 (PInt 3)]) =
+  Ok (mp 10 [(ky "a", NSeq i [lf 3 (PInt 1); lf 4 (PInt 2); lf 5 (PInt 3)])]).
+Proof. eexists. vm_compute. reflexivity. Qed.
+
+(* FORMER FINDING F-C11-2 (repaired by c8dbfd9): {a: [1, 2], k: 5} + 7 at /*:
+   the Array receives the Scalar, the Scalar is replaced by it. *)
+Example C11_scalar_at_two_targets :
+  merge_at no_lit cfg0 false [[RKey (PStr "a")]; [RKey (PStr "k")]]
+    (mp 10 [(ky "a", sq 11 [lf 3 (PInt 1); lf 4 (PInt 2)]); (ky "k", lf 6 (PInt 5))])
+    (lf 7 (PInt 7)) =
+  Ok (mp 10 [(ky "a", sq 11 [lf 3 (PInt 1); lf 4 (PInt 2); lf 7 (PInt 7)]); (ky "k", lf 6 (PInt 7))]).
+Proof. vm_compute. reflexivity. Qed.
+
+(* ---- a MISSING target path (creation is the Processor's: C09; adapter in Proofs/MergeAtCreate.v) ---- *)
+
+(* A created path that holds the right-hand document itself (a Hash / Array /
+   Set handed to Processor.get_nodes as default_value is stored as it is) still
+   holds it after the merge: the loop leaves such a target alone.  Every kind
+   of right-hand document, every configuration; with C11_frame for the rest of
+   the document. *)
+Theorem C11_created_target_holds_rhs :
+  forall lit cfg is_root l d' rhs out,
+    is_none rhs = false ->
+    lookup d' l = Some rhs ->
+    merge_at lit cfg is_root [l] d' rhs = Ok out ->
+    lookup out l = Some rhs.
+Proof. exact created_target_keeps_rhs. Qed.
+Print Assumptions C11_created_target_holds_rhs.
+
+(* The closed composition with C09's creation model (Create.create_query =
+   Processor.get_nodes(path, default_value=value) along a straight key / index
+   path), for the right-hand documents that model covers (Scalars).  Guard
+   [creates]: C09's guard (something is missing; the existing prefix does not
+   end at a null - F10b; the missing tail does not start below a set - F25).
+   [l] is the location the path denotes in the document after creation
+   ([resolve_loc]; it exists: C11_created_location_exists).  Then, after the
+   merge, [l] holds the right-hand value, and every node that existed before,
+   off the path, is still at its place: same identity, anchor, tag, Scalars
+   the same value, containers with at most more children. *)
+Theorem C11_missing_created_partial :
+  forall lit cfg segs value vo d d' pc next' ri l w out,
+    wf_doc d -> creates d segs = true ->
+    create_query lit segs value vo d = ROk (d', pc, next') ->
+    resolve_loc d' segs = Some (l, w) ->
+    is_none (NLeaf ri value) = false ->
+    (same_obj w (NLeaf ri value) = true -> w = NLeaf ri value) ->
+    merge_at lit cfg false [l] d' (NLeaf ri value) = Ok out ->
+    (exists i, lookup out l = Some (NLeaf i value)) /\
+    (forall p n, lookup d p = Some n -> leaves l p ->
+       exists n', lookup out p = Some n' /\ embeds n n' /\ node_info n' = node_info n /\
+                  (is_leaf n = true -> n' = n)).
+Proof. exact missing_created_scalar. Qed.
+Print Assumptions C11_missing_created_partial.
+
+Theorem C11_created_location_exists :
+  forall lit segs value vo d d' pc next',
+    wf_doc d -> creates d segs = true ->
+    create_query lit segs value vo d = ROk (d', pc, next') ->
+    exists l w, resolve_loc d' segs = Some (l, w) /\ List.length l = List.length segs /\ is_leaf w = true.
+Proof. exact created_location_exists. Qed.
+Print Assumptions C11_created_location_exists.
+
+(* non-vacuity: {a: 1} + 7 at /x/y  ->  {a: 1, x: {y: 7}} *)
+Example C11_missing_created_nonvacuous :
+  let d := mp 10 [(ky "a", lf 3 (PInt 1))] in
+  let segs := [SKey "x" None; SKey "y" None] in
+  wf_docb d = true /\ creates d segs = true /\
+  match create_query no_lit segs (PInt 7) (Some 7) d with
+  | ROk (d', _, _) =>
+      match resolve_loc d' segs with
+      | Some (l, w) =>
+          l = [RKey (PStr "x"); RKey (PStr "y")] /\ same_obj w (lf 7 (PInt 7)) = false /\
+          match merge_at no_lit cfg0 false [l] d' (lf 7 (PInt 7)) with
+          | Ok out => erase out = DMap [(PStr "a", DLeaf (PInt 1)); (PStr "x", DMap [(PStr "y", DLeaf (PInt 7))])]
+          | _ => False
+          end
+      | None => False
+      end
+  | RErr _ => False
+  end.
+Proof. vm_compute. repeat split. Qed.
+
+(* the created-container case: {a: 1} + {c: 2} at /x after creation stored the Hash itself *)
+Example C11_created_target_example :
+  merge_at no_lit cfg0 false [[RKey (PStr "x")]]
+    (mp 10 [(ky "a", lf 3 (PInt 1)); (ky "x", mp 20 [(ky "c", lf 5 (PInt 2))])])
+    (mp 20 [(ky "c", lf 5 (PInt 2))]) =
+  Ok (mp 10 [(ky "a", lf 3 (PInt 1)); (ky "x", mp 20 [(ky "c", lf 5 (PInt 2))])]).
+Proof. vm_compute. reflexivity. Qed.
